@@ -5,6 +5,7 @@ import (
 	"fmt"
 	"math/rand"
 	"net"
+	"os"
 	"sort"
 	"strconv"
 	"strings"
@@ -33,7 +34,10 @@ import (
 //	                                            => created | err:noexist | err:auth     (HandleVisitor up to the notify send)
 //	notify <name>                               => n<id> | none                          (one receive on the proxy's sidCh)
 //	cli <id> <k> <mapped> <assisted>            => ok | late | unknown                   (HandleClient via client transporter k of session id)
-//	report <id> <0|1>                           => unknown | <key known 0|1>#<mode>,<index>#<scores>
+//	report <id> <0|1>                           => <u|0|1>#<mode>,<index>#<scores of the session's key>#<same|changed:what>
+//	                                               (u = sid not stored, 0 = stored but not analysed, 1 = analysed; last field: everything
+//	                                                else a report could touch — sessions, other keys, key count — compared before/after)
+//	adump                                       => <keys>:<score lists, sorted>          (the controller's whole analyzer)
 //	settle                                      => live=<ids>                            (let every NatHoleTimeout and delayed send elapse, list sessions not stuck)
 //	stuck                                       => <ids> | -                             (sessions whose notify send can never be received)
 //	resp <id> <inr|oor>                         => V=<resps>#C0=<resps>#C1=<resps>       (everything each transporter of the session received)
@@ -83,6 +87,22 @@ type natSess struct {
 	at       time.Time
 	ch       chan string // the sidCh the handler is (or was) sending on
 	name     string
+	pmu      sync.Mutex
+	pan      string // a panic of this session's HandleVisitor goroutine (server/control.go runs it on a bare goroutine)
+}
+
+func (s *natSess) setPanic(v string) {
+	s.pmu.Lock()
+	if s.pan == "" {
+		s.pan = "PANIC:" + hx(v)
+	}
+	s.pmu.Unlock()
+}
+
+func (s *natSess) panicked() string {
+	s.pmu.Lock()
+	defer s.pmu.Unlock()
+	return s.pan
 }
 
 func (st *natState) isStuck(s *natSess) bool {
@@ -96,6 +116,8 @@ type natState struct {
 	sess  map[int]*natSess
 	bySid map[string]*natSess
 	last  time.Time
+	round time.Time       // first visit since the last settle (NAT_TIMING=1: round length on stderr)
+	keys  map[string]bool // analysis keys the controller's analyzer may hold (read back after every analysis)
 }
 
 var nst *natState
@@ -104,7 +126,7 @@ func natReset() {
 	nathole.NatHoleTimeout = 1
 	c, _ := nathole.NewController(time.Hour)
 	nst = &natState{an: nathole.NewAnalyzer(time.Hour), ctl: c, chans: map[string]chan string{},
-		sess: map[int]*natSess{}, bySid: map[string]*natSess{}, last: time.Now()}
+		sess: map[int]*natSess{}, bySid: map[string]*natSess{}, last: time.Now(), keys: map[string]bool{}}
 }
 
 func unlist(t string) []string {
@@ -196,13 +218,19 @@ func errClass(e string) string {
 }
 
 func (st *natState) respStr(r *msg.NatHoleResp) string {
+	return natRespStr(r, hx(r.TransactionID), func(sid string) string {
+		if s, ok := st.bySid[sid]; ok {
+			return "s" + strconv.Itoa(s.id)
+		}
+		return "?"
+	})
+}
+
+// natRespStr is the canonical form of a NatHoleResp (shared with the punch engine)
+func natRespStr(r *msg.NatHoleResp, tid string, sidName func(string) string) string {
 	sid := "-"
 	if r.Sid != "" {
-		if s, ok := st.bySid[r.Sid]; ok {
-			sid = "s" + strconv.Itoa(s.id)
-		} else {
-			sid = "?"
-		}
+		sid = sidName(r.Sid)
 	}
 	ports := "-"
 	if len(r.DetectBehavior.CandidatePorts) > 0 {
@@ -213,7 +241,7 @@ func (st *natState) respStr(r *msg.NatHoleResp) string {
 		ports = strings.Join(ps, "+")
 	}
 	b := r.DetectBehavior
-	return strings.Join([]string{hx(r.TransactionID), sid, hx(r.Protocol), mklist(r.CandidateAddrs), mklist(r.AssistedAddrs),
+	return strings.Join([]string{tid, sid, hx(r.Protocol), mklist(r.CandidateAddrs), mklist(r.AssistedAddrs),
 		roleStr(b.Role), strconv.Itoa(b.Mode), strconv.Itoa(b.TTL), strconv.Itoa(b.SendDelayMs), strconv.Itoa(b.ReadTimeoutMs),
 		ports, strconv.Itoa(b.SendRandomPorts), strconv.Itoa(b.ListenRandomPorts), errClass(r.Error)}, ";")
 }
@@ -236,8 +264,14 @@ func (st *natState) respsStr(t *capT) string {
 func (st *natState) awaitFirst(s *natSess, before int) string {
 	deadline := time.Now().Add(3 * time.Second)
 	for time.Now().Before(deadline) {
+		if p := s.panicked(); p != "" {
+			return p
+		}
 		n := s.tv.count() + s.tc[0].count() + s.tc[1].count()
 		if n > before {
+			if key, _, _, ok := st.ctl.VerifSessionInfo(s.sid); ok && key != "" {
+				st.keys[key] = true
+			}
 			isErr := false
 			for _, t := range []*capT{s.tv, s.tc[0], s.tc[1]} {
 				t.mu.Lock()
@@ -257,7 +291,75 @@ func (st *natState) awaitFirst(s *natSess, before int) string {
 	return "noresp"
 }
 
-func sidName(id int) string { return "s" + strconv.Itoa(id) }
+func (st *natState) anyPanic() string {
+	ids := []int{}
+	for id := range st.sess {
+		ids = append(ids, id)
+	}
+	sort.Ints(ids)
+	for _, id := range ids {
+		if p := st.sess[id].panicked(); p != "" {
+			return p
+		}
+	}
+	return ""
+}
+
+// natSnap is everything a NatHoleReport could touch: the stored sessions with what HandleReport reads
+// from them, and the analyzer (number of keys, the score list of every key an analysis ever produced
+// and of the empty key a not-yet-analysed session carries).
+type natSnap struct {
+	sess   map[string]string
+	count  int
+	scores map[string]string
+}
+
+func (st *natState) snap() natSnap {
+	sn := natSnap{sess: map[string]string{}, scores: map[string]string{}}
+	for _, sid := range st.ctl.VerifSessions() {
+		if key, mode, index, ok := st.ctl.VerifSessionInfo(sid); ok {
+			sn.sess[sid] = fmt.Sprintf("%s,%d,%d", key, mode, index)
+		}
+	}
+	an := st.ctl.VerifAnalyzer()
+	sn.count = an.VerifRecordCount()
+	one := func(k string) {
+		if sc, ok := an.VerifScores(k); ok {
+			sn.scores[k] = scoresStr(sc)
+		} else {
+			sn.scores[k] = "absent"
+		}
+	}
+	one("")
+	for k := range st.keys {
+		one(k)
+	}
+	return sn
+}
+
+// natFrame compares two snapshots around one HandleReport: "same" when nothing but the score list of
+// `own` (the analysis key of the reported, analysed session; "" = none) differs.  Handler goroutines
+// only ever delete sessions concurrently (timeouts), so a vanished session is not a change.
+func natFrame(a, b natSnap, own string) string {
+	for sid, info := range b.sess {
+		old, ok := a.sess[sid]
+		if !ok {
+			return "changed:session-added"
+		}
+		if old != info {
+			return "changed:session-info"
+		}
+	}
+	if a.count != b.count {
+		return "changed:record-count"
+	}
+	for k, v := range a.scores {
+		if (own == "" || k != own) && b.scores[k] != v {
+			return "changed:other-records"
+		}
+	}
+	return "same"
+}
 
 func natExec(tok []string) string {
 	if nst == nil {
@@ -343,9 +445,24 @@ func natExec(tok []string) string {
 			before[x] = true
 		}
 		st.sess[id] = s
-		go st.ctl.HandleVisitor(m, s.tv, unhx(tok[6]))
+		if st.round.IsZero() {
+			st.round = time.Now()
+		}
+		user := unhx(tok[6])
+		go func() {
+			// server/control.go runs HandleVisitor on a bare goroutine: a panic there ends frps
+			defer func() {
+				if r := recover(); r != nil {
+					s.setPanic(fmt.Sprint(r))
+				}
+			}()
+			st.ctl.HandleVisitor(m, s.tv, user)
+		}()
 		deadline := time.Now().Add(3 * time.Second)
 		for time.Now().Before(deadline) {
+			if p := s.panicked(); p != "" {
+				return p
+			}
 			if s.tv.count() > 0 {
 				s.tv.mu.Lock()
 				e := errClass(s.tv.msgs[0].Error)
@@ -368,7 +485,7 @@ func natExec(tok []string) string {
 		if !ok {
 			return "none"
 		}
-		wait := 30 * time.Millisecond
+		wait := 10 * time.Millisecond // no handler can be sending on this channel: only a spurious send would show
 		before := map[*natSess]int{}
 		liveSids := map[string]bool{}
 		for _, x := range st.ctl.VerifSessions() {
@@ -393,6 +510,9 @@ func natExec(tok []string) string {
 				// notifyCh already holds a token: the handler goes straight to the analysis
 				s.answered = true
 				if r := st.awaitFirst(s, before[s]); r != "ok" {
+					if strings.HasPrefix(r, "PANIC:") {
+						return r
+					}
 					return "n" + strconv.Itoa(s.id) + ":" + r
 				}
 			}
@@ -437,16 +557,49 @@ func natExec(tok []string) string {
 			sid = s.sid
 		}
 		key, mode, index, found := st.ctl.VerifSessionInfo(sid)
+		before := st.snap()
 		st.ctl.HandleReport(&msg.NatHoleReport{Sid: sid, Success: tok[2] == "1"})
-		if !found {
-			return "unknown"
+		after := st.snap()
+		// u = no such session stored, 0 = stored but not analysed (no analysis key yet: before the owner's
+		// NatHoleClient was analysed, or the analysis failed), 1 = analysed
+		state, own := "u", ""
+		if found {
+			state = "0"
+			if key != "" {
+				state, own = "1", key
+			}
 		}
-		sc, known := st.ctl.VerifAnalyzer().VerifScores(key)
-		return fmt.Sprintf("%s#%d,%d#%s", b01(known), mode, index, scoresStr(sc))
+		sc, _ := st.ctl.VerifAnalyzer().VerifScores(key)
+		if !found {
+			sc = nil
+		}
+		return fmt.Sprintf("%s#%d,%d#%s#%s", state, mode, index, scoresStr(sc), natFrame(before, after, own))
+	case "adump":
+		// the whole analyzer of the controller: number of keys and every score list (sorted as strings)
+		out := []string{}
+		for k := range st.keys {
+			if sc, ok := st.ctl.VerifAnalyzer().VerifScores(k); ok {
+				out = append(out, scoresStr(sc))
+			}
+		}
+		sort.Strings(out)
+		n := st.ctl.VerifAnalyzer().VerifRecordCount()
+		r := strconv.Itoa(n) + ":" + strings.Join(out, "/")
+		if n != len(out) {
+			r += "!untracked"
+		}
+		return r
 	case "settle":
 		// NatHoleTimeout (1 s) and the 1 s delay before the sender's response both elapse
+		if os.Getenv("NAT_TIMING") != "" && !st.round.IsZero() {
+			fmt.Fprintf(os.Stderr, "nat round: %d ms before settle\n", time.Since(st.round).Milliseconds())
+		}
+		st.round = time.Time{}
 		if d := time.Until(st.last.Add(1300 * time.Millisecond)); d > 0 {
 			time.Sleep(d)
+		}
+		if p := st.anyPanic(); p != "" {
+			return p
 		}
 		ids := []int{}
 		for _, sid := range st.ctl.VerifSessions() {
@@ -487,6 +640,9 @@ func natExec(tok []string) string {
 		s, ok := st.sess[atoi(tok[1])]
 		if !ok {
 			return "unknown"
+		}
+		if p := s.panicked(); p != "" {
+			return p
 		}
 		return "V=" + st.respsStr(s.tv) + "#C0=" + st.respsStr(s.tc[0]) + "#C1=" + st.respsStr(s.tc[1])
 	}
@@ -704,9 +860,27 @@ func natGen(rng *rand.Rand, n int, emit func(string)) {
 			for j := rng.Intn(3); j > 0; j-- {
 				e(fmt.Sprintf("precheck %s %s", hx(pick(rng, names)), hx(pick(rng, users))))
 			}
+			// Sessions of one round: every session is a script "visit, then owner / reporter events in any
+			// order" and the scripts are interleaved.  The classes of schedules produced (all are legal inputs of
+			// the controller: HandleVisitor, HandleClient and HandleReport run on independent goroutines of
+			// two or three controls):
+			//   - report before the owner was notified / between notify and NatHoleClient / after the responses
+			//     / after an error response (analysis failed, session kept) / for a session that timed out /
+			//     twice / with Success false / for ids that never existed or are not created yet
+			//   - NatHoleClient before the notify was received, never, twice through the same control with
+			//     other addresses, again through another control (before or after the analysis)
+			//   - the proxy closed (and re-opened) between lookup and notify
+			// A focus address pair per round makes the same analysis key recur, so that controller-level
+			// histories (scores going down by recommendations and up by reports) get deep.
 			k := 8 + rng.Intn(20)
 			ids := []int{}
 			oor := map[int]bool{}
+			type pairT struct {
+				vk, ck   int
+				vip, cip string
+			}
+			focus := pairT{rng.Intn(3), rng.Intn(3), pick(rng, natIPs[:2]), pick(rng, natIPs[2:4])}
+			scripts := [][]string{}
 			for j := 0; j < k; j++ {
 				id := nextID
 				nextID++
@@ -724,57 +898,98 @@ func natGen(rng *rand.Rand, n int, emit func(string)) {
 				case 1: // concatenation ambiguity of GetAuthKey: ("sk1", 2) vs ("sk", 12)
 					sk, tsUsed, ts = "sk1", 2, 12
 				}
-				vk := natKind(rng)
+				pr := pairT{natKind(rng), natKind(rng), pick(rng, natIPs[:2]), pick(rng, natIPs[2:4])}
 				if rng.Intn(3) > 0 {
-					vk = rng.Intn(3)
+					pr.vk = rng.Intn(3)
 				}
-				vm := natAddrs(rng, vk, pick(rng, natIPs[:2]))
+				if rng.Intn(3) > 0 {
+					pr.ck = rng.Intn(3)
+				}
+				if rng.Intn(2) == 0 {
+					pr = focus
+				}
+				vm := natAddrs(rng, pr.vk, pr.vip)
 				oor[id] = natAnyOutOfRange(vm)
-				e(fmt.Sprintf("visit %d %s %s %d %d %s %s %s %s", id, hx(nm), hx(sk), tsUsed, ts, hx(pick(rng, users)),
-					hx(pick(rng, []string{"quic", "kcp", ""})), mklist(vm), mklist(natAssisted(rng, vm))))
+				sc := []string{fmt.Sprintf("visit %d %s %s %d %d %s %s %s %s", id, hx(nm), hx(sk), tsUsed, ts, hx(pick(rng, users)),
+					hx(pick(rng, []string{"quic", "kcp", ""})), mklist(vm), mklist(natAssisted(rng, vm)))}
+				// owner-side events after the visit
+				ev := []string{}
 				switch rng.Intn(10) {
 				case 0: // the proxy closes between lookup and notify: nobody will ever receive
-					e("close " + hx(nm))
+					ev = append(ev, "close "+hx(nm))
 					if rng.Intn(5) > 0 { // … and comes back (new sidCh)
-						e(fmt.Sprintf("listen %s %s %s", hx(nm), hx("sk"), mklist([]string{"*"})))
+						ev = append(ev, fmt.Sprintf("listen %s %s %s", hx(nm), hx("sk"), mklist([]string{"*"})))
 					}
 				case 1: // not received yet
 				default:
-					e("notify " + hx(nm))
+					ev = append(ev, "notify "+hx(nm))
 				}
-			}
-			if rng.Intn(4) == 0 {
-				e("notify " + hx(pick(rng, names)))
-			}
-			for _, id := range ids {
-				if rng.Intn(8) == 0 {
-					continue // the owner never answers: timeout path
+				ncli := pick(rng, []int{0, 1, 1, 1, 1, 1, 1, 2, 2, 3})
+				firstCli := true
+				for c := 0; c < ncli; c++ {
+					cm := natAddrs(rng, pr.ck, pr.cip)
+					if !firstCli && rng.Intn(2) == 0 { // a repeated NatHoleClient need not repeat the addresses
+						cm = natAddrs(rng, natKind(rng), pick(rng, natIPs[2:4]))
+					}
+					if firstCli {
+						oor[id] = oor[id] || natAnyOutOfRange(cm)
+					}
+					tr := 0
+					if !firstCli && rng.Intn(2) == 0 {
+						tr = 1
+					}
+					line := fmt.Sprintf("cli %d %d %s %s", id, tr, mklist(cm), mklist(natAssisted(rng, cm)))
+					if firstCli && rng.Intn(12) == 0 && len(ev) > 0 {
+						// the NatHoleClient overtakes the notify (the token waits in notifyCh)
+						ev = append([]string{line}, ev...)
+					} else {
+						ev = append(ev, line)
+					}
+					firstCli = false
 				}
-				ck := natKind(rng)
-				if rng.Intn(3) > 0 {
-					ck = rng.Intn(3)
-				}
-				cm := natAddrs(rng, ck, pick(rng, natIPs[2:4]))
-				oor[id] = oor[id] || natAnyOutOfRange(cm)
-				e(fmt.Sprintf("cli %d %d %s %s", id, 0, mklist(cm), mklist(natAssisted(rng, cm))))
-				if rng.Intn(10) == 0 { // duplicate NatHoleClient from another control
-					e(fmt.Sprintf("cli %d %d %s %s", id, 1, mklist(cm), "-"))
-				}
-			}
-			if rng.Intn(5) == 0 {
-				e(fmt.Sprintf("cli %d 0 - -", nextID+1000))
-			}
-			for _, id := range ids {
-				if rng.Intn(2) == 0 {
+				// reports: any number, anywhere after the visit
+				for r := pick(rng, []int{0, 0, 1, 1, 1, 2, 2, 3}); r > 0; r-- {
 					succ := 1
 					if rng.Intn(4) == 0 {
 						succ = 0
 					}
-					e(fmt.Sprintf("report %d %d", id, succ))
+					at := rng.Intn(len(ev) + 1)
+					ev = append(ev[:at], append([]string{fmt.Sprintf("report %d %d", id, succ)}, ev[at:]...)...)
+				}
+				scripts = append(scripts, append(sc, ev...))
+			}
+			// unknown ids: never created, or not created yet (the id of a later round)
+			extra := []string{}
+			if rng.Intn(3) == 0 {
+				extra = append(extra, fmt.Sprintf("cli %d 0 - -", nextID+1000))
+			}
+			if rng.Intn(2) == 0 {
+				extra = append(extra, fmt.Sprintf("report %d %d", nextID+rng.Intn(3), rng.Intn(2)))
+			}
+			if rng.Intn(3) == 0 {
+				extra = append(extra, fmt.Sprintf("report %d 1", nextID+1000))
+			}
+			if rng.Intn(4) == 0 {
+				extra = append(extra, "notify "+hx(pick(rng, names)))
+			}
+			if len(extra) > 0 {
+				scripts = append(scripts, extra)
+			}
+			// interleave: the next event comes from one of the (up to) four oldest unfinished scripts
+			for len(scripts) > 0 {
+				w := len(scripts)
+				if w > 4 {
+					w = 4
+				}
+				i := rng.Intn(w)
+				e(scripts[i][0])
+				scripts[i] = scripts[i][1:]
+				if len(scripts[i]) == 0 {
+					scripts = append(scripts[:i], scripts[i+1:]...)
 				}
 			}
-			if rng.Intn(5) == 0 {
-				e(fmt.Sprintf("report %d 1", nextID+1000))
+			if rng.Intn(2) == 0 {
+				e("adump")
 			}
 			e("settle")
 			e("stuck")
@@ -785,10 +1000,16 @@ func natGen(rng *rand.Rand, n int, emit func(string)) {
 				}
 				e(fmt.Sprintf("resp %d %s", id, tag))
 				e(fmt.Sprintf("rangechk %d %s", id, tag))
-				if rng.Intn(4) == 0 {
-					e(fmt.Sprintf("report %d 1", id))
+				// late events: reports (once, twice) and a late NatHoleClient for a completed, failed or expired session
+				for r := pick(rng, []int{0, 0, 0, 1, 1, 2}); r > 0; r-- {
+					e(fmt.Sprintf("report %d %d", id, pick(rng, []int{1, 1, 1, 0})))
+				}
+				if rng.Intn(12) == 0 {
+					e(fmt.Sprintf("cli %d %d - -", id, rng.Intn(2)))
+					e(fmt.Sprintf("resp %d %s", id, tag))
 				}
 			}
+			e("adump")
 			if rng.Intn(10) == 0 {
 				e("reset")
 				nextID = 0
